@@ -770,6 +770,21 @@ func init() {
 		}
 	}})
 
+	register("goerr", &oracleEngine{evalEngine: evalEngine{gen: func(r *rng, n int, tier string, emit func(string)) {
+		for i := 0; i < n; i++ {
+			emit(evalPayload(-1, "-", nil, goerrProgram(r)))
+		}
+	}}, oracle: func(payload, obs string) string {
+		// the sentinel is never caught-and-dropped by these programs: it must reach the caller, still reachable
+		if !strings.HasPrefix(obs, "err lisp ( GE )") {
+			return "a Go error raised by a builtin did not reach the caller as an error wrapping it: " + resultPart(obs)
+		}
+		if !lastErrIsSentinel {
+			return "the error returned to the Go caller no longer satisfies errors.Is(err, sentinel)"
+		}
+		return ""
+	}})
+
 	register("malformed", &evalEngine{gen: func(r *rng, n int, tier string, emit func(string)) {
 		malformedCases(r, n, tier, func(f MalType) {
 			emit(evalPayloadChild(f))
@@ -913,4 +928,35 @@ func init() {
 		}
 		return ""
 	}})
+}
+
+// ---------------------------------------------------------------- C03: Go errors stay reachable with errors.Is
+// programs in which a Go builtin fails with a sentinel error (returned or panicked) somewhere below
+// calls / builtin callbacks / macro expansions / nested try forms that re-throw it; the error that
+// reaches the Go caller must still satisfy errors.Is(err, sentinel).
+
+func goerrProgram(r *rng) MalType {
+	src := sy(r.pick([]string{"go-fail!", "go-panic!"}))
+	var e MalType = ls(src)
+	for i, n := 0, r.intn(5); i < n; i++ {
+		switch r.intn(8) {
+		case 0:
+			e = ls(ls(sy("fn"), vc(), e))
+		case 1:
+			e = call1("map", ls(sy("fn"), vc(sy("x")), e), vc(1, 2))
+		case 2:
+			e = call1("apply", ls(sy("fn"), vc(sy("&"), sy("xs")), e), vc(1))
+		case 3:
+			e = ls(sy("try"), e, ls(sy("catch"), sy("err"), call1("trace!", kw("rethrow")), call1("throw", sy("err"))))
+		case 4:
+			e = ls(sy("try"), e, ls(sy("finally"), call1("trace!", kw("fin"))))
+		case 5:
+			e = ls(sy("cond"), false, 1, true, e)
+		case 6:
+			e = ls(sy("let"), vc(sy("a"), call1("atom", 0)), call1("swap!", sy("a"), ls(sy("fn"), vc(sy("x")), e)))
+		default:
+			e = ls(sy("do"), call1("trace!", 1), e)
+		}
+	}
+	return e
 }
